@@ -123,8 +123,18 @@ type CodeErr int
 
 func (CodeErr) Error() string { return "injected ctor error (integer code 0)" }
 
+// PluginErr is a constructor error that carries the failure of a nested container (a plugin,
+// a sub-application) next to its own sentinel: the chain contains one of godi's own error types.
+type PluginErr struct {
+	Own   *SentinelErr
+	Inner error
+}
+
+func (e *PluginErr) Error() string   { return "plugin failed: " + e.Own.Error() + ": " + e.Inner.Error() }
+func (e *PluginErr) Unwrap() []error { return []error{e.Inner, e.Own} }
+
 // ErrShapes names the shapes InjectedErr produces.
-var ErrShapes = []string{"pointer", "zero-struct", "zero-int", "wrapped"}
+var ErrShapes = []string{"pointer", "zero-struct", "zero-int", "wrapped", "wraps-godi-build-error-pointer", "wraps-godi-build-error-value"}
 
 // InjectedErr builds the error a faulted constructor returns.
 func InjectedErr(idx, ctor, nth int) error {
@@ -135,6 +145,10 @@ func InjectedErr(idx, ctor, nth int) error {
 		return CodeErr(0)
 	case 3:
 		return fmt.Errorf("constructor gave up: %w", &SentinelErr{Ctor: ctor, Nth: nth})
+	case 4:
+		return &PluginErr{Own: &SentinelErr{Ctor: ctor, Nth: nth}, Inner: &godi.BuildError{Phase: "singleton-creation", Details: "nested container", Cause: errors.New("inner constructor failed")}}
+	case 5:
+		return &PluginErr{Own: &SentinelErr{Ctor: ctor, Nth: nth}, Inner: godi.BuildError{Phase: "validation", Details: "nested container", Cause: errors.New("inner validation failed")}}
 	}
 	return &SentinelErr{Ctor: ctor, Nth: nth}
 }
